@@ -36,6 +36,7 @@ ASSUMPTIONS = [
     "classification must follow the sign of t^2 - mag^2 only when |t^2 - mag^2| exceeds the tolerance by a rounding margin; non-overlap for a common tolerance is demanded always",
     "angle predicates are decided only on pairs whose cosine is at least a factor 2 away from the decision boundary; zero vectors excluded",
     "NaN operands are outside the property",
+    "an azimuth the caller *stored* outside [-pi, pi] is returned as stored by the phi accessor of rho-phi systems (identity accessor); the range clause is demanded for every derived phi and for deltaphi, including for such operands",
 ]
 CAP_S = {"quick": 900, "thorough": 3600}
 PI = math.pi
@@ -131,7 +132,10 @@ def unary_checks(res, v: Vec, system, tier):
             # (a) phi in [-pi, pi]
             try:
                 phi = get("phi")
-                chk("range", "phi", -pi <= phi <= pi, f"phi = {phi!r} outside [-pi, pi]")
+                if v.has("wildphi") and system[0] == "rhophi":
+                    res.count("stored_phi_outside_range_is_returned_as_stored")  # the accessor of a stored coordinate is the identity: the range clause is about derived azimuths
+                else:
+                    chk("range", "phi", -pi <= phi <= pi, f"phi = {phi!r} outside [-pi, pi]")
             except _Skip:
                 pass
             # (c) non-negative quantities
